@@ -3,7 +3,7 @@ VIEW View
 CHECK_DEADLOCK FALSE
 CONSTANTS Depth = 2
           MaxActs = 2
-          Fms = {1}
+          Fm0 = FALSE
           Abstract = FALSE
           FullFirst = FALSE
           Starts = {"two"}
